@@ -62,6 +62,7 @@ struct Extractor {
 
     // per function state
     std::map<const Stmt*, int> NodeIds;
+    std::map<const VarDecl*, int> VarNodeIds;
     int NextNode = 0;
     std::string CurFile;
 
@@ -612,6 +613,7 @@ struct Extractor {
 
     json::Value varNode(const VarDecl* VD) {
         json::Object O;
+        VarNodeIds[VD] = NextNode;
         O["id"] = NextNode++;
         O["k"] = "VarDecl";
         putLoc(O, VD->getLocation());
@@ -667,6 +669,15 @@ struct Extractor {
                         if (El.empty() || !(El.back().getAsInteger() &&
                                             *El.back().getAsInteger() == it->second))
                             El.push_back(it->second);
+                    }
+                    else if (auto* DS = dyn_cast<DeclStmt>(CS->getStmt())) {
+                        // `T a = x, b = y;` is split by the CFG builder into synthetic single-declaration
+                        // statements: the VarDecl node stands for them
+                        if (DS->isSingleDecl())
+                            if (auto* VD = dyn_cast<VarDecl>(DS->getSingleDecl())) {
+                                auto vi = VarNodeIds.find(VD);
+                                if (vi != VarNodeIds.end()) El.push_back(vi->second);
+                            }
                     }
                 }
                 else if (auto AD = E.getAs<CFGAutomaticObjDtor>()) {
@@ -729,6 +740,7 @@ struct Extractor {
 
     void emitFunction(const FunctionDecl* FD) {
         NodeIds.clear();
+        VarNodeIds.clear();
         NextNode = 0;
         CurFile = "";
         {
